@@ -45,9 +45,13 @@ def showKbErr : KbErr → String
   | .digest => "digest" | .nonce => "nonce" | .aud => "aud" | .iatRange => "iatRange" | .tooEarly => "tooEarly"
   | .tooLate => "tooLate" | .future => "future"
 
+/-- `E`: the expected value is the empty string; no key-binding JWT of the stream carries it (number 1000000) -/
+def emptyExpected (om : List (String × String)) : List (String × String) :=
+  om.map fun (k, v) => if (k == "n" || k == "a") && v == "E" then (k, "1000000") else (k, v)
+
 def kb (doc ktok opts : String) : String :=
   let m := C02.kvc (ktok.drop 2).toString ";" ":"
-  let om := C02.kvc (opts.drop 2).toString ";" ":"
+  let om := emptyExpected (C02.kvc (opts.drop 2).toString ";" ":")
   let typ : Option (Option Bool) := match C02.get m "typ" with
     | some "k" => some (some true)
     | some "s" => some (some false)
